@@ -67,8 +67,8 @@ SCOPES = {
         fmts=["md5", "sha1"], files=[P("a"), P("d", "b")], dirs=[P("d")],
         init={P("a"): "c1", P("d"): "DIR", P("d", "b"): "c2"}, contents=["c1", "c2"],
         roots=[P()], fmtchoices=[["md5"], ["sha1"], ["md5", "sha1"]], pats=[()], sf=[frozenset({P("d", "b")})],
-        ops=["alter", "delete", "create", "createsf", "verify", "diff", "verifysf", "flatten", "verifypl", "info", "infosf", "hash"],
-        maxgens=3, maxops=6, keepsnap=False,
+        ops=["alter", "delete", "create", "createsf", "verify", "diff", "verifysf", "flatten", "verifypl", "info", "infosf", "hash", "verifydh", "verifydhco", "nodh"],
+        maxgens=3, maxops=6, keepsnap=True,
     ),
     # flatten and verify -pl over flat histories with changing formats, failed entries, partial -sf generations
     "flat": dict(
@@ -80,11 +80,11 @@ SCOPES = {
     ),
     # info / info -sf over nested histories
     "inf": dict(
-        fmts=["md5", "sha1"], files=[P("a"), P("d", "b")], dirs=[P("d")],
-        init={P("a"): "c1", P("d"): "DIR", P("d", "b"): "c2"}, contents=["c1", "c2"],
-        roots=[P(), P("d")], fmtchoices=[["md5"], ["sha1"], ["md5", "sha1"]], pats=[()], sf=[frozenset({P("d", "b")})],
+        fmts=["md5", "sha1"], files=[P("a"), P("d", "b"), P("d", "e", "c")], dirs=[P("d"), P("d", "e"), P("d2")],
+        init={P("a"): "c1", P("d"): "DIR", P("d", "b"): "c2", P("d", "e"): "DIR", P("d", "e", "c"): "c1", P("d2"): "DIR"}, contents=["c1", "c2"],
+        roots=[P(), P("d"), P("d", "e"), P("d2")], fmtchoices=[["md5"], ["sha1"], ["md5", "sha1"]], pats=[()], sf=[frozenset({P("d", "b")}), frozenset({P("d", "e", "c")})],
         ops=["alter", "create", "createsf", "info", "infosf"],
-        maxgens=4, maxops=7, keepsnap=False,
+        maxgens=4, maxops=7, keepsnap=False, mutable=[P("a"), P("d", "e", "c")],
     ),
     # nested histories: root > d > d/e, sibling d2 (name is a prefix extension of d)
     "nest": dict(
@@ -143,6 +143,14 @@ SCOPES = {
         roots=[P()], fmtchoices=[["md5"], ["xxh64"]], pats=[()], sf=[],
         ops=["alter", "rename", "mkdir", "create", "verify", "diff", "dr", "distinct"], maxgens=3, maxops=7, keepsnap=False,
         mutable=[P("a"), P("a2"), P("d", "a3"), P("d")],
+    ),
+    # rename cycles only (rename, create -dr, verify): small enough to export every behaviour up to six operations
+    "chain2": dict(
+        fmts=["md5"], files=[P("a"), P("a2"), P("d", "a3")], dirs=[P("d")],
+        init={P("a"): "c1", P("d"): "DIR"}, contents=["c1"],
+        roots=[P()], fmtchoices=[["md5"]], pats=[()], sf=[],
+        ops=["rename", "create", "verify", "dr", "dronly"], maxgens=3, maxops=6, keepsnap=False,
+        mutable=[P("a"), P("a2"), P("d", "a3")],
     ),
     # directory-hash verification
     "dh": dict(
